@@ -185,11 +185,11 @@ PROPS = {
         require_observed=['handoff:file_arrived_before_first_write', 'handoff:mid_stream_from_memory', 'handoff:mid_stream_from_temp_file', 'handoff:after_the_writer_closed', 'converter_runs', 'runs_compared'],
         level="exploration",
         floor=20,
-        builds=["harness"],
+        builds=["harness", "cli"],
         legs=lambda tier, seed, scratch: [
             dict(cmd="c11w", name="c11-writer-digests", cases=_q(tier, 128, 800), stall_s=60),
             dict(cmd="c11c", name="c11-converters", cases=_q(tier, 200, 3000), stall_s=60),
-        ] + ([_san().tsan_leg("c11-tsan", "c11w", 48, tier, seed, scratch)] if tier != "quick" else []),
+        ] + __import__("c11_tool").legs(tier, seed, scratch) + ([_san().tsan_leg("c11-tsan", "c11w", 48, tier, seed, scratch)] if tier != "quick" else []),
         rule="A case of leg c11-writer-digests is one class = (input with 4..8 chromosomes of uneven size, the first the "
         "heaviest; format options; pass mode), written 10 (quick) / 30 (thorough) times into an in-memory sink with runs "
         "that differ only in workers {current-thread,1,2,3,4,8,16}, channel_size {0,1,100}, inmemory, source {iterator, "
@@ -198,7 +198,9 @@ PROPS = {
         "The hook trace (one global log, appended after the delay) gives per run the hand-off class of every chromosome "
         "{file arrived before first write | mid-stream from memory | mid-stream from temp file | after the writer "
         "closed}, an interleaving signature, and ordering-safety checks (switches in chromosome order; a chromosome "
-        "takes the file only after its predecessor returned it). Leg c11-converters: write_bg / write_bed with 1..16 "
+        "takes the file only after its predecessor returned it). Legs c11-*-thread-counts: the bedgraphtobigwig / bedtobigbed "
+        "binaries with one option vector (non-default compression, block size, zoom options, pass / parallel / in-memory modes) "
+        "at -t 1, the vector's own count and two more from 2..16: all output files byte-identical. Leg c11-converters: write_bg / write_bed with 1..16 "
         "threads, inmemory on/off and delay policies vs write_bg_singlethreaded / write_bed_singlethreaded, byte "
         "equality. Thorough adds the same writer workload in a ThreadSanitizer build (hooks in sanitizer mode: delays "
         "only, no shared state). Non-trivial = >= 2 successful runs compared and >= 2 chromosomes; distinct by class.",
@@ -457,6 +459,7 @@ _late()
 
 
 def _late2():
+    import c11_tool  # noqa: F401
     import c15_tool  # noqa: F401
     import c16  # noqa: F401
     import c17_tool  # noqa: F401
